@@ -4,8 +4,9 @@
 (* invariants; the string set is exported so that the harness replays the   *)
 (* same space through the real interpreter.                                 *)
 EXTENDS LangObjPaths, TLC, Json, SequencesExt
-CONSTANTS MaxLen,      \* longest string
-          WithBackslash  \* TRUE: the alphabet also has '\'
+CONSTANTS MaxLen,        \* longest string
+          WithBackslash, \* TRUE: the alphabet also has '\'
+          Explore        \* FALSE: only export the string set
 VARIABLES a, b, c
 vars == <<a, b, c>>
 
@@ -17,7 +18,7 @@ AllStrs == UNION { StrsOfLen(n) : n \in 0..MaxLen }
 \* a is chosen first, (b, c) in one step: the successor computation is what TLC spreads over its workers
 None == <<0>>
 Init == a \in AllStrs /\ b = None /\ c = None
-Next == b = None /\ a' = a /\ b' \in AllStrs /\ c' \in AllStrs
+Next == Explore /\ b = None /\ a' = a /\ b' \in AllStrs /\ c' \in AllStrs
 Spec == Init /\ [][Next]_vars
 
 Chosen == b # None
